@@ -1,6 +1,6 @@
 (** Extraction of the executable model (OCaml).  Only [ExtrOcamlBasic]; numbers stay the
     extracted inductive [N]; no [Extract Constant]. *)
-From ASModel Require Import Base State Orderings_gen Step Run Sum AccDefs ProtDefs Scope Stale Stale2.
+From ASModel Require Import Base State Orderings_gen Step Run Sum AccDefs ProtDefs Scope Stale Stale2 StaleC StaleCView.
 Require Extraction.
 Require Import ExtrOcamlBasic.
 
@@ -16,4 +16,4 @@ Definition N_of_digits (ds : list N) : N := fold_left (fun acc d => acc * 10 + d
 
 Extraction Language OCaml.
 
-Extraction "extract/model.ml" step enabled init_state N_digits N_of_digits mkConfig acc_check_all prot_check scope_step step_stale step_stale2.
+Extraction "extract/model.ml" step enabled init_state N_digits N_of_digits mkConfig acc_check_all prot_check scope_step step_stale step_stale2 step_stale3 vstep3 staleC_okb vghost0.
